@@ -718,9 +718,18 @@ def build_cases(tier, seed):
             kw = dict(base, max_cycles=2)
             cases.append(dict(opt=opt, cfg_name=cfg_name, cfg_kw=kw, kind="cont3", direction="min", seed=seeds[0], mode="process",
                               workers=base["population_size"] + 1, scenario="single", scale=1.0))
-            for w_ in (9, 16):      # wide thread pools
-                cases.append(dict(opt=opt, cfg_name=cfg_name, cfg_kw=kw, kind="cont3", direction="min", seed=seeds[0], mode="thread",
-                                  workers=w_, scenario="single", scale=1.0))
+
+        # wide thread pools (worker counts that do not divide the population), ties in pooled mode (plateau objective)
+        for w_ in (7, 16):
+            cases.append(dict(opt=opt, cfg_name=cfg_name, cfg_kw=dict(base, max_cycles=2), kind="cont3", direction="min", seed=seeds[0],
+                              mode="thread", workers=w_, scenario="single", scale=1.0))
+        cases.append(dict(opt=opt, cfg_name=cfg_name, cfg_kw=dict(base, max_cycles=4), kind="plateau", direction="min", seed=seeds[0],
+                          mode="thread", workers=3, scenario="single", scale=1.0))
+        # an instance used before on another task, with early stopping configured (the rate history must start afresh)
+        cases.append(dict(opt=opt, cfg_name=cfg_name, cfg_kw=dict(base, max_cycles=6, early_stopping=dict(patience=1, min_delta=0.5)),
+                          kind="cont3", direction="min", seed=seeds[0], mode=None, scenario="reuse2", scale=1.0, stopping="es"))
+        cases.append(dict(opt=opt, cfg_name=cfg_name, cfg_kw=dict(base, max_cycles=6, early_stopping=dict(patience=1, min_delta=0.5)),
+                          kind="cont3", direction="min", seed=seeds[0], mode=None, scenario="reuse3", scale=1.0, stopping="es"))
         # relational scenarios
         for scn in ("repro", "reuse", "setcfg", "duality", "reuse2", "repro0", "setcfg2", "duality_reuse", "reuse3", "reuse_dim"):
             kw = dict(base, max_cycles=3)
